@@ -108,11 +108,24 @@ func (cb *CircuitBreaker) Execute(fn func() error) error {
 		return err
 	}
 
-	// Increment request count for half-open state
+	// Admission: in half-open the budget is checked and the trial counted in
+	// one critical section, so concurrent callers that all saw a free budget
+	// (or lost the open -> half-open race) cannot exceed max_requests; a
+	// caller that finds the breaker re-opened meanwhile is turned away too
 	vgate("cb:count")
 	cb.mutex.Lock()
-	if cb.state == StateHalfOpen {
+	switch cb.state {
+	case StateHalfOpen:
+		if cb.requestCount >= cb.maxRequests {
+			cb.mutex.Unlock()
+			return ErrTooManyRequests
+		}
 		cb.requestCount++
+	case StateOpen:
+		if !cb.nextAttempt.Before(time.Now()) {
+			cb.mutex.Unlock()
+			return ErrCircuitBreakerOpen
+		}
 	}
 	cb.mutex.Unlock()
 
